@@ -3054,11 +3054,12 @@ scan_escape_sequence(int c) {
     // hex character.
     c = get();
     if (isxdigit(c)) {
-      int val = hex_val(c);
-      if (isxdigit(peek())) {
+      // A hex escape runs for as long as there are hex digits.
+      unsigned int val = hex_val(c);
+      while (isxdigit(peek())) {
         val = (val << 4) | hex_val(get());
       }
-      return val;
+      return (int)val;
     }
     break;
 
